@@ -2,12 +2,13 @@
 import itertools
 from lib import *
 from rules.c18 import check_part
+from rules.c05 import delegate_and_fast_reject
 
 EXPLANATION = (
     "D1 operator scan table ('>' / '<' followed by '=' or not -> GE/LE/GT/LT with version start +2/+2/+1/+1) and validation table over (operator count 0/1/2/>=3 x operator kinds): Ok iff one operator, or two with the first in {GT,GE} and the second in {LT,LE}; "
     "bound texts and base are the slices between the recorded operator positions; each bound is DeweyMatch{op, DeweyVersion::new(text)}; "
     "D2 Dewey::matches splits at the last '-', compares the prefix with the stored base by full string equality (no prefix/suffix/case-folding test), a name without '-' is false, the suffix is the version; "
-    "D3 conjunction of bounds (shared with C03); D4 brace-free patterns with '<' or '>' are compiled by Dewey::new(pattern)? in Pattern::new and matched by Dewey::matches(pkg) in Pattern::matches")
+    "D3 conjunction of bounds (shared with C03); D4 brace-free patterns with '<' or '>' are compiled by Dewey::new(pattern)? in Pattern::new and matched by Dewey::matches(pkg) in Pattern::matches, and the fast-reject in front of the delegate is inert (is_simple_char / quick_pkg_match / early-exit rules shared with C05)")
 NOT_DECIDED = ["byte-for-byte equality semantics of str::eq; match_indices / str::get semantics (std)"]
 CONFIG_SENSITIVE = False
 
@@ -220,3 +221,6 @@ def run(ctx):
         b = ctx.body("pattern::Pattern::matches")
         ok = any(is_call(p.end[1], DM) and mentions(call_args(p.end[1])[0], lambda s: s[0] == "field" and s[3] == "dewey") and strip_refs(call_args(p.end[1])[1]) == ("param", 2) for p in ret_paths(pm))
         ctx.check(ok, "D4-PATTERN-AGREES", "pattern::Pattern::matches", "dewey-delegate", "Dewey patterns are matched by Dewey::matches(pkg)", "Pattern::matches does not delegate Dewey patterns to Dewey::matches on the same name", fn_span(b))
+
+    # the fast-reject in front of the delegate must be inert, or Pattern disagrees with Dewey (shared with C05)
+    delegate_and_fast_reject(ctx, only_fast_reject=True, P="D4-")
